@@ -123,6 +123,22 @@ func init() {
 			tx("B create pool minimal (1001 x 1001 pip)", transaction.TypeCreateSwapPool, B, transaction.CreateSwapPoolData{Coin0: PoolTokA, Coin1: PoolTokC, Volume0: big.NewInt(1001), Volume1: big.NewInt(1001)}, 0),
 			tx("B send 1 BIP gas TOKA (fee through pool with orders)", transaction.TypeSend, B, transaction.SendData{Coin: 0, To: A.Addr, Value: e18(1)}, PoolTokA),
 			tx("A send LP-3 to zero address", transaction.TypeSend, A, transaction.SendData{Coin: PoolLP3, To: types.Address{}, Value: e18(1)}, 0),
+			// cancelling an order of the fee pool while paying the fee in TOKA: the fee conversion itself fills the
+			// order first (order 3 completely: nothing is left to cancel; order 2 only after order 3)
+			tx("C cancels tiny order 3, gas TOKA (the fee conversion consumes the order)", transaction.TypeRemoveLimitOrder, C, transaction.RemoveLimitOrderData{ID: 3}, PoolTokA),
+			tx("C cancels order 2, gas TOKA", transaction.TypeRemoveLimitOrder, C, transaction.RemoveLimitOrderData{ID: 2}, PoolTokA),
+			tx("C cancels order 1, gas TOKA", transaction.TypeRemoveLimitOrder, C, transaction.RemoveLimitOrderData{ID: 1}, PoolTokA),
+			// reference failures (tag failref): a Send of more than the payer owns, fee in TOKA
+			func() Tx {
+				t := tx("B sends 10^9 BIP, gas TOKA (reference failure of B)", transaction.TypeSend, B, transaction.SendData{Coin: 0, To: A.Addr, Value: e18(1000000000)}, PoolTokA)
+				t.Tags = []string{"failref"}
+				return t
+			}(),
+			func() Tx {
+				t := tx("C sends 10^9 BIP, gas TOKA (reference failure of C)", transaction.TypeSend, C, transaction.SendData{Coin: 0, To: A.Addr, Value: e18(1000000000)}, PoolTokA)
+				t.Tags = []string{"failref"}
+				return t
+			}(),
 		}
 		return w
 	})
